@@ -5,6 +5,8 @@ import (
 	"context"
 	"encoding/json"
 	"fmt"
+	"os"
+	"path/filepath"
 	"reflect"
 	"strconv"
 	"strings"
@@ -31,7 +33,7 @@ func init() {
 	core.Register(&core.Prop{ID: "C02", Run: runC02, MaxSteps: 100000})
 }
 
-var c02Behaviours = []string{"ok", "ok", "flip", "truncate-cl-adjusted", "substitute", "substitute+matching-digest-header", "wrong-digest-header", "no-digest-header", "contradicting-content-type", "append-whitespace", "reencode-json"}
+var c02Behaviours = []string{"ok", "ok", "connection-dropped-mid-body", "flip", "truncate-cl-adjusted", "substitute", "substitute+matching-digest-header", "wrong-digest-header", "no-digest-header", "contradicting-content-type", "append-whitespace", "reencode-json"}
 
 func declaredMT(raw []byte) string {
 	var p struct {
@@ -67,7 +69,7 @@ func runC02(e *core.Env) {
 	useLayout := e.Choose("gen", 4, "endpoint") == 3 && g.Alg == "sha256" && !signed
 	behaviour := c02Behaviours[e.Choose("net", len(c02Behaviours), "behaviour")]
 	if useLayout {
-		behaviour = []string{"ok", "stored-flip", "stored-truncate", "stored-substitute"}[e.Choose("disk", 4, "stored")]
+		behaviour = []string{"ok", "stored-flip", "stored-truncate", "stored-substitute", "index-entry-size-wrong"}[e.Choose("disk", 5, "stored")]
 	}
 	// how the expected digest is supplied
 	how := []string{"tag", "digest-ref", "tag+descriptor", "digest-ref+descriptor", "tag+wrong-descriptor", "wrong-digest-ref"}[e.Choose("gen", 6, "how")]
@@ -94,11 +96,39 @@ func runC02(e *core.Env) {
 		}
 		_ = gen.LayoutFile(ep.dir, n.Digest, stored)
 		served = stored
+		if behaviour == "index-entry-size-wrong" {
+			// a layout written by another tool whose index entry carries a wrong size for the (intact) manifest
+			ib, _ := os.ReadFile(filepath.Join(ep.dir, "index.json"))
+			var ix map[string]any
+			if json.Unmarshal(ib, &ix) == nil {
+				for _, m := range ix["manifests"].([]any) {
+					me := m.(map[string]any)
+					if me["digest"] == n.Digest {
+						me["size"] = len(n.Raw) + 7
+					}
+				}
+				nb, _ := json.Marshal(ix)
+				_ = os.WriteFile(filepath.Join(ep.dir, "index.json"), nb, 0o644)
+			}
+		}
 	} else {
 		up = w.AddReg("up.test")
 		ep.reg, ep.repo = up, "proj/app"
 		gr.Install(up, "proj/app", "v1")
 		up.Repo("proj/app").Tags["pick"] = n.Digest
+		if behaviour == "connection-dropped-mid-body" {
+			// not a byzantine registry but a network fault: the body of the first manifest GET breaks off and the
+			// client resumes with a Range request, which the registry honours (206, Content-Length of the rest)
+			dropped := false
+			w.Net.Hook = func(x *simnet.Exchange) *simnet.Fault {
+				if dropped || x.Method != "GET" || !strings.Contains(x.Path, "/manifests/") || x.Host != "up.test" {
+					return nil
+				}
+				dropped = true
+				e.Fault("body-truncate")
+				return &simnet.Fault{Kind: simnet.FTruncate, TruncAt: 1 + e.Choose("net", len(n.Raw), "dropat")}
+			}
+		}
 		w.Net.Mutate = func(x *simnet.Exchange, r *simnet.Response) *simnet.Response {
 			if x.Method != "GET" || !strings.Contains(x.Path, "/manifests/") || r.Status != 200 || x.Host != "up.test" {
 				return r
